@@ -1,6 +1,6 @@
 (* Proofs about Model/Print.v.  Used by Properties_C06.v. *)
 From LedgerV Require Import Base.Prelude Base.Round Model.Amount Model.AmountText Model.Xact Model.Print
-  Proofs.AmountProofs Proofs.RoundProofs Proofs.XactProofs.
+  Proofs.AmountProofs Proofs.RoundProofs Proofs.XactProofs Model.Assert.
 From Coq Require Import Qabs Lqa Setoid Permutation.
 Local Opaque Qred.
 
@@ -1024,3 +1024,117 @@ Proof.
 Qed.
 
 End Bucket.
+
+(* ================================================================== a printed balance assignment *)
+(* `Acct  = A` is printed as `Acct  x' = A` with the computed amount x at display precision.  When the
+   account's running total carries digits below the display precision (an elided leg of a fractional
+   per-unit cost), x' differs from x by a residue and the re-read assertion is off by that residue: it is
+   decided by the display-zero test at the commodity's precision (textual.cc:1781, `! diff.is_zero()`) *)
+Section PrintedAssignment.
+Local Open Scope Z_scope.
+
+Lemma print_scaled_small n d p : 0 < d -> 0 <= p <= 230 -> 2 * Z.abs n * 10 ^ p < d -> print_scaled n d p = 0.
+Proof.
+  intros Hd Hp Hs. pose proof (print_half_ulp_230 n d p Hd Hp) as H.
+  assert (H10 : 0 < 10 ^ p) by (apply Z.pow_pos_nonneg; lia).
+  destruct (Z.eq_dec (print_scaled n d p) 0) as [E|E]; [exact E|exfalso].
+  set (N := print_scaled n d p) in *.
+  assert (Hn : d <= Z.abs (N * d)) by (rewrite Z.abs_mul, (Z.abs_eq d) by lia; nia).
+  assert (Ht : Z.abs (N * d) <= Z.abs (N * d - n * 10 ^ p) + Z.abs (n * 10 ^ p)) by lia.
+  rewrite (Z.abs_mul n), (Z.abs_eq (10 ^ p)) in Ht by lia. lia.
+Qed.
+
+(* an amount that carries more decimals than its commodity displays and is smaller than half a display unit
+   displays as zero *)
+Lemma small_is_zero cp a k :
+  acomm a = Some k -> akeep a = false -> cp k < aprec a -> 0 <= cp k <= 230 ->
+  (2 * Qabs (aq a) * inject_Z (10 ^ cp k) < 1)%Q -> is_zero cp a = true.
+Proof.
+  intros Hc Hk Hp Hcp Hs. unfold is_zero. rewrite Hc, Hk. cbn [orb].
+  replace (aprec a <=? cp k) with false by (symmetry; apply Z.leb_gt; exact Hp).
+  destruct (is_realzero a); [reflexivity|].
+  assert (H10 : 0 < 10 ^ cp k) by (apply Z.pow_pos_nonneg; lia).
+  destruct (aq a) as [n d]. cbn [Qnum Qden].
+  assert (Hz : 2 * Z.abs n * 10 ^ cp k < Z.pos d).
+  { unfold Qlt in Hs. cbn [Qnum Qden Qmult Qabs inject_Z] in Hs. rewrite ?Pos2Z.inj_mul in Hs.
+    set (P := 10 ^ cp k) in *. nia. }
+  replace (Z.pos d <? n) with false by (symmetry; apply Z.ltb_ge; nia).
+  rewrite (print_scaled_small n (Z.pos d) (cp k)); [reflexivity | lia | exact Hcp | exact Hz].
+Qed.
+
+Definition with_amt (p : post) (a : option amount) : post :=
+  mkPost (p_acct p) (p_kind p) a (p_cost p) (p_lotprice p) (p_calculated p) (p_generated p) (p_cost_calculated p).
+
+Lemma with_amt_acct p a : p_acct (with_amt p a) = p_acct p. Proof. reflexivity. Qed.
+Lemma with_amt_virtual p a : is_virtual (with_amt p a) = is_virtual p. Proof. reflexivity. Qed.
+Lemma with_amt_amt p a : p_amt (with_amt p a) = a. Proof. reflexivity. Qed.
+
+Theorem printed_assignment_rereads_accepted ord cp hist p amt t k :
+  p_amt p = None ->
+  acct_total ord hist (p_acct p) (negb (is_virtual p)) VVoid = Ok (VAmt t) ->
+  acomm amt = Some k -> acomm t = Some k -> base_sym k = k -> akeep amt = false ->
+  is_realzero amt = false -> is_realzero t = false ->
+  cp k < aprec t -> 0 <= cp k <= 230 ->
+  let x := mkAmt (Qred (aq amt - aq t)) (addsub_prec amt t) false (Some k) in
+  is_zero cp x = false ->
+  (* what ledger computes for the assignment *)
+  resolve_assigned ord cp false hist [] (mkW p (Some amt)) = Ok (with_amt p (Some x)) /\
+  (* what it makes of the printed form `x' = amt`, x' within half a display unit of x *)
+  forall x', acomm x' = Some k ->
+    (2 * Qabs (aq x - aq x') * inject_Z (10 ^ cp k) < 1)%Q ->
+    resolve_assigned ord cp false hist [] (mkW (with_amt p (Some x')) (Some amt)) = Ok (with_amt p (Some x')).
+Proof.
+  intros Hnone Ht Hk Hkt Hbase Hkeep Hza Hzt Hprec Hcp x Hzx.
+  assert (Hcm : comm_eqb (acomm amt) (acomm t) = true) by (rewrite Hk, Hkt; apply comm_eqb_refl).
+  assert (Hsub : amt_sub amt t = Ok x).
+  { unfold amt_sub, diff_comm. rewrite Hcm. cbn [negb]. rewrite andb_false_r. unfold x. rewrite Hkeep, Hk. reflexivity. }
+  assert (Hrx : is_realzero x = false).
+  { destruct (is_realzero x) eqn:E; [|reflexivity]. rewrite (is_realzero_is_zero cp x E) in Hzx. discriminate. }
+  assert (Hd1 : bal_sub_amt ord (bal_of_amt amt) t = Ok [x]).
+  { unfold bal_of_amt. rewrite Hza. unfold bal_sub_amt. rewrite Hzt. cbn [bal_find]. rewrite Hcm, Hsub. cbn [bind].
+    rewrite Hrx. cbn [bal_replace]. rewrite Hcm. reflexivity. }
+  assert (Hrestrict : restrict [x] amt = [x]).
+  { unfold restrict. rewrite Hk. cbn [bal_find acomm x]. rewrite comm_eqb_refl. reflexivity. }
+  split.
+  - unfold resolve_assigned. cbn [w_assigned w_post]. rewrite Ht. cbn [bind]. rewrite Hd1. cbn [bind sub_earlier].
+    rewrite Hrestrict, Hnone. cbn [bal_is_zero forallb]. rewrite Hzx. reflexivity.
+  - intros x' Hkx Hsmall.
+    unfold resolve_assigned. cbn [w_assigned w_post]. rewrite !with_amt_acct, !with_amt_virtual, with_amt_amt.
+    rewrite Ht. cbn [bind]. rewrite Hd1. cbn [bind sub_earlier]. rewrite Hrestrict.
+    assert (Hsx : strip x' = mkAmt (aq x') (aprec x') (akeep x') (Some k)).
+    { unfold strip. rewrite Hkx, Hbase. reflexivity. }
+    assert (Hown : negb (has_comm amt) || comm_eqb (acomm (strip x')) (acomm amt) = true).
+    { rewrite Hsx, Hk. cbn [acomm]. rewrite comm_eqb_refl. apply orb_true_r. }
+    rewrite Hown.
+    assert (Hpx : cp k < aprec x).
+    { unfold x. cbn [aprec]. unfold addsub_prec, has_comm. rewrite Hk, Hkt. cbn. destruct (aprec amt <? aprec t) eqn:E; [exact Hprec|].
+      apply Z.ltb_ge in E. lia. }
+    unfold bal_sub_amt. destruct (is_realzero (strip x')) eqn:Hzx'.
+    + (* the printed amount is zero: then x itself is below half a unit and would have displayed as zero *)
+      exfalso. apply is_realzero_spec in Hzx'. rewrite Hsx in Hzx'. cbn [aq] in Hzx'.
+      assert (Hs : (2 * Qabs (aq x) * inject_Z (10 ^ cp k) < 1)%Q).
+      { assert (E : (aq x - aq x' == aq x)%Q) by (rewrite Hzx'; ring). rewrite E in Hsmall. exact Hsmall. }
+      rewrite (small_is_zero cp x k eq_refl eq_refl Hpx Hcp Hs) in Hzx. discriminate.
+    + rewrite Hsx. cbn [bal_find acomm x]. rewrite comm_eqb_refl.
+      set (sx := mkAmt (aq x') (aprec x') (akeep x') (Some k)).
+      assert (Hs2 : exists s2, amt_sub x sx = Ok s2 /\ acomm s2 = Some k /\ akeep s2 = false /\ cp k < aprec s2 /\
+                               (aq s2 == aq x - aq x')%Q).
+      { unfold amt_sub, diff_comm. cbn [has_comm acomm x sx]. rewrite comm_eqb_refl. cbn [negb andb].
+        eexists. split; [reflexivity|]. cbn [acomm akeep aprec aq x sx]. repeat split.
+        - unfold addsub_prec. cbn [has_comm acomm aprec]. cbn. fold x.
+          destruct (addsub_prec amt t <? aprec x') eqn:E; [apply Z.ltb_lt in E; unfold x in Hpx; cbn [aprec] in Hpx; lia|].
+          unfold x in Hpx. cbn [aprec] in Hpx. exact Hpx.
+        - rewrite Qred_correct. reflexivity. }
+      destruct Hs2 as [s2 [Hs2 [Hc2 [Hk2 [Hp2 Hq2]]]]]. rewrite Hs2. cbn [bind].
+      destruct (is_realzero s2); cbn [bal_erase bal_replace acomm x]; rewrite comm_eqb_refl; cbn [bal_is_zero forallb negb andb bind];
+        [reflexivity|].
+      assert (Hs : (2 * Qabs (aq s2) * inject_Z (10 ^ cp k) < 1)%Q) by (rewrite Hq2; exact Hsmall).
+      rewrite (small_is_zero cp s2 k Hc2 Hk2 Hp2 Hcp Hs). reflexivity.
+Qed.
+
+End PrintedAssignment.
+
+(* without assigned amounts the learning view is the transaction itself: Xact.run_journal *)
+Lemma run_journal_l_plain ord bucket : forall xs pl,
+  run_journal_l ord bucket pl (map (fun x => (x, x)) xs) = run_journal ord bucket pl xs.
+Proof. induction xs as [|x xs IH]; intros pl; cbn [map run_journal_l run_journal]; [reflexivity | rewrite IH; reflexivity]. Qed.
